@@ -80,6 +80,7 @@ type Rec struct {
 	root       string
 	incomplete string
 	lastReplay string
+	digests    [][2]string
 }
 
 // Root returns the /verif directory (env VERIF_ROOT, default /verif).
@@ -271,6 +272,19 @@ func (r *Rec) Incomplete(why string) {
 	r.mu.Unlock()
 }
 
+// CaseDigest records a digest of the deterministic outputs of a case (only
+// when VERIF_DIGESTS is set: the driver runs one shard in two processes and
+// compares the lists, which catches output that differs from run to run).
+func (r *Rec) CaseDigest(c any, digest string) {
+	if os.Getenv("VERIF_DIGESTS") == "" {
+		return
+	}
+	b, _ := json.Marshal(c)
+	r.mu.Lock()
+	r.digests = append(r.digests, [2]string{string(b), digest})
+	r.mu.Unlock()
+}
+
 // TakeIncomplete returns and clears the inconclusive note (fuzz targets
 // handle it per execution).
 func (r *Rec) TakeIncomplete() string {
@@ -355,6 +369,7 @@ type Partial struct {
 	WallS       float64          `json:"wall_s"`
 	Incomplete  string           `json:"incomplete"`
 	Done        bool             `json:"done"`
+	Digests     [][2]string      `json:"digests,omitempty"`
 }
 
 // Write writes the partial evidence to VERIF_OUT.
@@ -368,7 +383,7 @@ func (r *Rec) Write() {
 	p := Partial{ID: r.ID, Tier: r.Tier, Seed: r.Seed, Shard: r.Shard, Level: r.Level, Evals: r.evals, Bulk: r.bulk,
 		Classes: r.classes, Samples: r.samples, Rule: r.Rule, Assumptions: r.Assumptions, Exhaustive: r.Exhaustive,
 		Known: r.knownHit, Violations: r.viol, Extra: r.Extra, WallS: time.Since(r.start).Seconds(),
-		Incomplete: r.incomplete, Done: true}
+		Incomplete: r.incomplete, Done: true, Digests: r.digests}
 	hs := make([]string, 0, len(r.distinct))
 	for h := range r.distinct {
 		hs = append(hs, strconv.FormatUint(h, 36))
